@@ -31,7 +31,7 @@ func init() {
 		Real:     []string{"seehuhn.de/go/pdf/pagetree Writer (merge, collapse, inherit, futureInt), Iterator, GetPage, NumPages; pdf.Writer/Reader (working tree)"},
 		Stub:     []string{"order of the writers' steps (tape-driven)", "sink (simdisk)"},
 		Quick:    core.Budget{Runs: 24000, Secs: 150},
-		Thorough: core.Budget{Runs: 1500000, Secs: 1500},
+		Thorough: core.Budget{Runs: 1500000, Secs: 900},
 		Run:      Run,
 		Corners:  corners,
 	})
